@@ -22,7 +22,8 @@
    AddPoolDepreciateProposal) are state: the handlers' early returns on them are modelled in place.
    Not modelled (the generator never issues them / never enables them):
    DeletePoolAndTransferInterest (block hook that deletes pool records), the generation-1 liquidation / auction modules
-   (x/liquidation MsgLiquidateBorrow, x/auction lend bids, CreteNewBorrow, RemoveFaultyAuctions),
+   (x/auction lend auctions and bids, x/liquidation UnLiquidateLockedBorrows, CreteNewBorrow, RemoveFaultyAuctions;
+   the generation-1 hand-over message x/liquidation MsgLiquidateBorrow IS modelled, with its sell-off amounts as ENV),
    sdk.Int 256-bit overflow of book totals (amounts are bank coins), Int64() conversions inside
    the rate arithmetic. *)
 From Comdex Require Import Lib.Base Lib.DecArith.
@@ -93,12 +94,13 @@ Record state := mkSt {
   bnk : bank; lctr : Z; bctr : Z;
   prices : list (Z * Z);                                (* active Twa per asset; absent = no active price *)
   killed : list Z;                                      (* apps whose ESM kill switch (BreakerEnable) is on *)
-  depr : list Z }.                                      (* pool ids in the pool-depreciation records *)
+  depr : list Z;                                        (* pool ids in the pool-depreciation records *)
+  v1 : list Z }.                                        (* borrow ids flagged by the GENERATION-1 liquidation (no generation-2 auction) *)
 
 Definition with_bank (st : state) (b : bank) : state :=
-  mkSt (lends st) (borrows st) (sstats st) b (lctr st) (bctr st) (prices st) (killed st) (depr st).
+  mkSt (lends st) (borrows st) (sstats st) b (lctr st) (bctr st) (prices st) (killed st) (depr st) (v1 st).
 Definition with_books (st : state) (L : list (Z * lendpos)) (B : list (Z * borrowpos)) (S : list ((Z * Z) * stats)) : state :=
-  mkSt L B S (bnk st) (lctr st) (bctr st) (prices st) (killed st) (depr st).
+  mkSt L B S (bnk st) (lctr st) (bctr st) (prices st) (killed st) (depr st) (v1 st).
 (* esm GetKillSwitchData(app).BreakerEnable and lend IsPoolDepreciated(pool): both early returns of the handlers *)
 Definition is_killed (st : state) (app : Z) : bool := existsb (Z.eqb app) (killed st).
 Definition is_depr (st : state) (poolid : Z) : bool := existsb (Z.eqb poolid) (depr st).
@@ -353,7 +355,7 @@ Definition lend_asset (cfg : config) (st : state) (user asset denom amt poolid a
                 | None => Err 18
                 | Some s =>
                     Ok (mkSt (zset (lends st) id l) (borrows st) (pset S1 (poolid, asset) (set_s_lids s (s_lids s ++ [id])))
-                             b3 id (bctr st) (prices st) (killed st) (depr st))
+                             b3 id (bctr st) (prices st) (killed st) (depr st) (v1 st))
                 end
             end
         end
@@ -701,7 +703,7 @@ Definition open_borrow (st : state) (bk : bank) (lid : Z) (l : lendpos) (pr : pa
   | Some s =>
       let l1 := upd_lend l (l_in l) (l_avail l - ain) (l_rewards l) (l_tracker l) (l_bids l ++ [id]) in
       Ok (mkSt (zset (lends st) lid l1) (zset (borrows st) id bp) (pset S1 k (set_s_bids s (s_bids s ++ [id])))
-               bk (lctr st) id (prices st) (killed st) (depr st))
+               bk (lctr st) id (prices st) (killed st) (depr st) (v1 st))
   end.
 
 Definition borrow_asset (cfg : config) (st : state) (user lid pid : Z) (stable : bool) (din ain dout aout : Z)
@@ -837,7 +839,7 @@ Definition borrow_alternate (cfg : config) (st : state) (user asset poolid din a
                 | None => Panic
                 | Some s =>
                     let st1 := mkSt (zset (lends st) id l) (borrows st) (pset S1 (poolid, asset) (set_s_lids s (s_lids s ++ [id])))
-                                    b3 id (bctr st) (prices st) (killed st) (depr st) in
+                                    b3 id (bctr st) (prices st) (killed st) (depr st) (v1 st) in
                     borrow_asset cfg st1 user id pid stable cden ain dout aout e1 e2
                 end
           end
@@ -1008,7 +1010,8 @@ Definition fund_reserve (cfg : config) (st : state) (user asset denom amt : Z) :
 Definition auc_bid (st : state) (bid d : Z) : outcome state :=      (* d (ENV): 1 accepted, 2 panic, else rejected *)
   match zget (borrows st) bid with
   | None => Err 51
-  | Some b => if negb (b_liq b) then Err 51 else if d =? 1 then Ok st else if d =? 2 then Panic else Err 50
+  | Some b => if negb (b_liq b) || existsb (Z.eqb bid) (v1 st) then Err 51
+              else if d =? 1 then Ok st else if d =? 2 then Panic else Err 50
   end.
 
 (* coins that arrive from an account whose ledger is not modelled (the debt coins the bidders paid into
@@ -1057,7 +1060,7 @@ Definition auc_close (cfg : config) (st : state) (bid target owner back : Z) : o
   match zget (borrows st) bid with
   | None => Err 51
   | Some b =>
-      if negb (b_liq b) then Err 51 else
+      if negb (b_liq b) || existsb (Z.eqb bid) (v1 st) then Err 51 else
       match zget (c_pairs cfg) (b_pair b) with
       | None => Panic
       | Some pr =>
@@ -1107,6 +1110,49 @@ Definition auc_close (cfg : config) (st : state) (bid target owner back : Z) : o
       end end
   end.
 
+(* ---------- generation 1: x/liquidation MsgLiquidateBorrow (still routed) ---------- *)
+(* CreateLockedBorrow + UpdateLockedBorrows of x/liquidation/keeper.  ENV (measured on the real run): the result
+   d of everything that is not lend bookkeeping - interest for liquidation, the liquidation decision, the sell-off
+   arithmetic, the generation-1 auction activator (0 not liquidatable: NOTHING is written, not even the interest;
+   1 handed over; 2 error; 3 panic) - the interest added, and the three amounts of the sell-off: coins sent to
+   the generation-1 auction module account (sell-off + bonus), penalty sent to the reserve, total deduction.
+   As coded: the position is flagged and keeps the part of its collateral that was not deducted; the deduction
+   leaves the lend record's AmountIn and TotalLend (capped by the collateral) and its cTokens are burnt (the
+   UNCAPPED deduction); the lend record is never deleted; TotalBorrowed is NOT touched although the position is
+   now under liquidation (the block-hook variant LiquidateBorrows subtracts the principal, and CreteNewBorrow
+   adds it back when an unsold position returns) - finding C08-F4. *)
+Definition AUCTION1 : Z := 201.                               (* module account "auctionV1" *)
+Definition hand_over_v1 (cfg : config) (st : state) (bid d dint toauc pen ded : Z) : outcome state :=
+  match zget (borrows st) bid with
+  | None => Err 9
+  | Some b0 =>
+      if b_liq b0 then Err 23 else
+      match zget (lends st) (b_lend b0) with
+      | None => Err 1
+      | Some l =>
+          if d =? 3 then Panic else
+          if is_killed st (l_app l) then Err 32 else
+          if d =? 2 then Err 44 else
+          if negb (d =? 1) then Ok st else
+          match zget (c_pairs cfg) (b_pair b0) with
+          | None => Panic
+          | Some pr =>
+          match zget (c_pools cfg) (l_pool l), cdenom_of cfg (pr_in pr) with
+          | Some pin, Some cden =>
+              b1 <- send (bnk st) (p_mod pin) AUCTION1 (pr_in pr) toauc ;;
+              b2 <- send b1 (p_mod pin) RESERVE (pr_in pr) pen ;;
+              let take := if ded >=? b_in b0 then b_in b0 else ded in
+              S1 <- upd_lend_stats (sstats st) (l_pool l, l_asset l) (- take) ;;
+              b3 <- burn b2 (p_mod pin) cden ded ;;
+              let b := upd_borrow b0 (b_in b0 - take) (b_out b0) (b_brd b0) (b_int b0 + dint) (b_res b0) true in
+              let l1 := upd_lend l (l_in l - take) (l_avail l) (l_rewards l) (l_tracker l) (l_bids l) in
+              Ok (mkSt (zset (lends st) (b_lend b0) l1) (zset (borrows st) bid b) S1 b3 (lctr st) (bctr st) (prices st)
+                       (killed st) (depr st) (bid :: v1 st))
+          | _, _ => Panic
+          end end
+      end
+  end.
+
 (* ---------- messages (ValidateBasic, then the handler) ---------- *)
 Inductive op :=
 | OLend (user asset denom amt poolid app ipb : Z)
@@ -1128,7 +1174,8 @@ Inductive op :=
 | OFundMod (user poolid asset denom amt : Z)       (* MsgFundModuleAccounts *)
 | OFundReserve (user asset denom amt : Z)          (* MsgFundReserveAccounts *)
 | OKill (admin : bool) (app : Z) (on : bool)       (* esm MsgKillSwitch{AppId, BreakerEnable} *)
-| ODepreciate (poolid : Z).                        (* governance: AddPoolDepreciateProposal for one pool *)
+| ODepreciate (poolid : Z)                         (* governance: AddPoolDepreciateProposal for one pool *)
+| OHandOverV1 (bid d dint toauc pen ded : Z).      (* x/liquidation MsgLiquidateBorrow{BorrowId bid} (generation 1) *)
 
 Definition step (cfg : config) (st : state) (o : op) : outcome state :=
   match o with
@@ -1152,7 +1199,7 @@ Definition step (cfg : config) (st : state) (o : op) : outcome state :=
   | OCalc u es ipbs => calc_all cfg st u es ipbs
   | OSetPrice a p =>
       Ok (mkSt (lends st) (borrows st) (sstats st) (bnk st) (lctr st) (bctr st)
-               (match p with Some v => zset (prices st) a v | None => zdel (prices st) a end) (killed st) (depr st))
+               (match p with Some v => zset (prices st) a v | None => zdel (prices st) a end) (killed st) (depr st) (v1 st))
   | OHandOver bid d dint => if bid =? 0 then Err 100 else hand_over cfg st bid d dint
   | OAucBid bid d => auc_bid st bid d
   | OAucClose bid target owner back => auc_close cfg st bid target owner back
@@ -1166,14 +1213,15 @@ Definition step (cfg : config) (st : state) (o : op) : outcome state :=
       | None => Err 61
       | Some _ =>
           let ks := filter (fun x => negb (x =? app)) (killed st) in
-          Ok (mkSt (lends st) (borrows st) (sstats st) (bnk st) (lctr st) (bctr st) (prices st) (if on then app :: ks else ks) (depr st))
+          Ok (mkSt (lends st) (borrows st) (sstats st) (bnk st) (lctr st) (bctr st) (prices st) (if on then app :: ks else ks) (depr st) (v1 st))
       end
   | ODepreciate p =>
       (* AddPoolDepreciate: the pool exists; the record is appended (IsPoolDepreciated looks at the pool id only) *)
       match zget (c_pools cfg) p with
       | None => Err 2
-      | Some _ => Ok (mkSt (lends st) (borrows st) (sstats st) (bnk st) (lctr st) (bctr st) (prices st) (killed st) (depr st ++ [p]))
+      | Some _ => Ok (mkSt (lends st) (borrows st) (sstats st) (bnk st) (lctr st) (bctr st) (prices st) (killed st) (depr st ++ [p]) (v1 st))
       end
+  | OHandOverV1 bid d dint toauc pen ded => if bid =? 0 then Err 100 else hand_over_v1 cfg st bid d dint toauc pen ded
   end.
 
 (* baseapp: the writes of a message are kept only when it returns no error and does not panic *)
@@ -1414,16 +1462,24 @@ Definition kf_C08_2 (st : state) (o : op) : bool :=
       end
   | _ => false
   end.
-(* a history none of whose messages falls into the class *)
+(* known-finding class 4 (C08-F4): a generation-1 hand-over (x/liquidation MsgLiquidateBorrow) that goes through:
+   the position is flagged but its principal stays in the published totals borrowed *)
+Definition kf_C08_4 (st : state) (o : op) : bool :=
+  match o with
+  | OHandOverV1 j d _ _ _ _ => (d =? 1) && match zget (borrows st) j with Some b => negb (b_liq b) | None => false end
+  | _ => false
+  end.
+Definition kf_books (st : state) (o : op) : bool := kf_C08_2 st o || kf_C08_4 st o.
+(* a history none of whose messages falls into a class that breaks the book identities *)
 Fixpoint clean (cfg : config) (st : state) (ops : list op) : Prop :=
   match ops with
   | [] => True
-  | o :: r => kf_C08_2 st o = false /\ clean cfg (apply_op cfg st o) r
+  | o :: r => kf_books st o = false /\ clean cfg (apply_op cfg st o) r
   end.
 Fixpoint cleanb (cfg : config) (st : state) (ops : list op) : bool :=
   match ops with
   | [] => true
-  | o :: r => negb (kf_C08_2 st o) && cleanb cfg (apply_op cfg st o) r
+  | o :: r => negb (kf_books st o) && cleanb cfg (apply_op cfg st o) r
   end.
 
 (* ------------------------------------------------------------------------------------------ *)
